@@ -45,14 +45,7 @@ Theorem arena_methods_lifted : forall f, In f fns -> mem (cg_owner f) arena_owne
   forall d, In d (do_collection_ids fns) -> ~ path fns (cg_id f) d.
 Proof.
   intros f Hin Hown Hrecv d Hd.
-  pose proof (proj1 (forallb_forall _ _) arena_methods_check f Hin) as H.
-  unfold arena_method_ok in H.
-  destruct (mem (cg_owner f) arena_owners); [|discriminate].
-  destruct (recv_exclusive (cg_recv f)); [discriminate|].
-  cbv [negb orb] in H. unfold cannot_collect in H.
-  apply andb_prop in H. destruct H as [Hc Hdis].
-  exact (closed_unreachable fns [cg_id f] (reach_from fns [cg_id f]) (do_collection_ids fns)
-           Hc Hdis (cg_id f) d (or_introl eq_refl) Hd).
+  exact (arena_method_ok_spec fns f (proj1 (forallb_forall _ _) arena_methods_check f Hin) Hown Hrecv d Hd).
 Qed.
 
 Lemma collecting_methods_check :
@@ -72,13 +65,13 @@ Proof. vm_compute. reflexivity. Qed.
 Lemma statics_check : is_nil statics && is_nil thread_locals && is_nil GenCallGraph.unknown_items = true.
 Proof. vm_compute. reflexivity. Qed.
 
+Lemma is_nil_spec : forall {A} (l : list A), is_nil l = true -> l = [].
+Proof. intros A [|x l]; simpl; [reflexivity | discriminate]. Qed.
+
 Lemma statics_nil : statics = [] /\ thread_locals = [] /\ GenCallGraph.unknown_items = [].
 Proof.
   pose proof statics_check as H. apply andb_prop in H. destruct H as [H H3]. apply andb_prop in H. destruct H as [H1 H2].
-  repeat split.
-  - destruct statics; [reflexivity | discriminate].
-  - destruct thread_locals; [reflexivity | discriminate].
-  - destruct GenCallGraph.unknown_items; [reflexivity | discriminate].
+  exact (conj (is_nil_spec _ H1) (conj (is_nil_spec _ H2) (is_nil_spec _ H3))).
 Qed.
 
 Lemma state_structs_check : forallb (state_struct_ok decls) state_structs = true.
